@@ -4,7 +4,7 @@
    flags, connection, three attributes, what the OPEN carries) - the theorems are proved for every value of it and for arbitrary
    counters, queues and configured values. *)
 From Coq Require Import List NArith Bool.
-From RC Require Import Base.Res Base.Wire Model.Negotiate Gen.FsmTable Model.Fsm Model.RefFsm Proofs.C08Proofs.
+From RC Require Import Base.Res Base.Wire Model.Negotiate Gen.FsmTable Model.Fsm Model.RefFsm Proofs.C08Proofs Proofs.C08Burst.
 Import ListNotations.
 Open Scope N_scope.
 
@@ -63,6 +63,16 @@ Theorem c08_update_iff_established : forall s id,
   (s_st s <> SEstablished -> s_app s' = s_app s).
 Proof. exact c08_update_iff_proof. Qed.
 Print Assumptions c08_update_iff_established.
+
+(* however many UPDATEs arrive back to back in Established (burst = handle_msg folded over them): every one reaches the
+   application, once, in order, behind what was queued before, and the session stays Established.  (The queue towards the
+   application is an unbounded list in the model: Session::handle_msg waits on `send().await` when the channel is full - pinned -
+   rather than dropping; the harness runs bursts beyond the channel's capacity against a consumer that reads only then.) *)
+Theorem c08_update_burst : forall ids s,
+  s_st s = SEstablished ->
+  s_app (burst s ids) = s_app s ++ map AUpdate ids /\ s_st (burst s ids) = SEstablished.
+Proof. exact c08_update_burst_proof. Qed.
+Print Assumptions c08_update_burst.
 
 Theorem c08_notification_received : forall s id,
   let s' := fst (handle_msg s (WNotification id)) in exists rest, s_app s' = s_app s ++ ANotification id :: rest.
